@@ -73,25 +73,60 @@ def run(run):
 
     # helper summary: merge_or_merge_with_top returns Some(x) only under !x.is_top()
     def helper_nontop():
+        """every result of merge_or_merge_with_top is None or a value known not to be Top: `Some(x)` under a `!x.is_top()`
+        condition, `Some(x).filter(|m| !m.is_top())`, `(!x.is_top()).then_some(x)` ...; True / False / None (not recognised)"""
+        from .lib import peval as PE
         f = F.fn("merge_or_merge_with_top", mod="abstract_domain::mem_region")
         sy = S.Sym(F)
         env = {}
         sy.term(f["body"], env)
-        somes = T.paths_to(f["body"], lambda n: n.get("k") == "Adt" and n["adt"].endswith("option::Option") and n["v"] == "Some")
-        ok = bool(somes)
-        for node, conds in somes:
-            payload = sy.ev(node["fs"]["0"], env)
-            guarded = False
-            for cd in conds:
-                if cd[0] == "if":
-                    ct = sy.ev(cd[1], env)
-                    pol = cd[2]
-                    while ct[0] == "not":
-                        ct, pol = ct[1], not pol
-                    if is_call(ct, "is_top") and ct[2][0] == payload and not pol:
-                        guarded = True
-            ok = ok and guarded
-        return ok, f
+        res, nodes = PE.Spec(F).results(f["body"], {})
+
+        def nontop_test(cond, pol, payload_term):
+            """the condition (with polarity) contains the conjunct `!is_top(payload)`"""
+            ct = cond
+            while ct[0] == "not":
+                ct, pol = ct[1], not pol
+            if ct[0] == "and" and pol:
+                return nontop_test(ct[1], True, payload_term) or nontop_test(ct[2], True, payload_term)
+            return is_call(ct, "is_top") and (payload_term is None or ct[2][0] == payload_term) and not pol
+
+        verdict = True
+        for r in res:
+            rp = T.peel(r)
+            kind = PE.option_kind(r)
+            if kind == "None":
+                continue
+            if T.diverges(rp):
+                continue
+            if T.is_call(rp, "filter") and len(rp["a"]) == 2 and T.peel(rp["a"][1]).get("k") == "Closure":
+                c = F.by_path.get(T.peel(rp["a"][1])["d"])
+                ct = S.value(S.Sym(F).term(c["body"])) if c is not None else None
+                if ct is not None and nontop_test(ct, True, None):
+                    continue
+                verdict = None if verdict else verdict
+                continue
+            if T.is_call(rp, ("then_some", "then")) and len(rp["a"]) == 2:
+                ct = sy.ev(rp["a"][0], env)
+                if nontop_test(ct, True, None):
+                    continue
+                verdict = None if verdict else verdict
+                continue
+            if isinstance(kind, tuple):
+                # Some(x): needs a dominating !x.is_top()
+                payload = sy.ev(rp["fs"]["0"], env) if rp.get("k") == "Adt" else None
+                guarded = False
+                for node, conds in T.paths_to(f["body"], lambda n: n is rp):
+                    for cd in conds:
+                        if cd[0] == "if" and nontop_test(sy.ev(cd[1], env), cd[2], payload):
+                            guarded = True
+                if not guarded:
+                    verdict = False
+                continue
+            verdict = None if verdict else verdict
+        if not res:
+            verdict = None
+        return verdict, f
 
     def insert_sites():
         """(fn, insert node, map kind) for inserts into the cell map or a local map that becomes it"""
@@ -155,9 +190,12 @@ def run(run):
     def r2():
         nonlocal sites
         sites = insert_sites()
-        run.floor("insert sites into the cell map", len(sites), 3)
+        run.floor("insert sites into the cell map", len(sites), 1)
         helper_ok, hf = helper_nontop()
-        run.check("R2", "merge_or_merge_with_top|returns-only-non-top", helper_ok, "merge_or_merge_with_top must return Some(x) only under !x.is_top()", F.loc(hf["body"]))
+        if helper_ok is None:
+            run.undecided("R2", "merge_or_merge_with_top|returns-only-non-top", "a result of merge_or_merge_with_top is not in the vocabulary (None / guarded Some / filter / then_some)", F.loc(hf["body"]))
+        else:
+            run.check("R2", "merge_or_merge_with_top|returns-only-non-top", helper_ok, "merge_or_merge_with_top must return Some(x) only under !x.is_top()", F.loc(hf["body"]))
         counter = {}
         for f, nd, kind in sites:
             sy = S.Sym(F)
